@@ -4,14 +4,50 @@ use crate::engine::*;
 use crate::prog::{self, ExecOpts, Program};
 use crate::{vensure, vfail};
 use proptest::prelude::*;
+use serde::{Deserialize, Serialize};
 use std::time::Duration;
 
 pub struct C02;
 
-pub fn check(p: &Program) -> Result<(bool, Vec<&'static str>), Failure> {
+/// A program, optionally driven in steps (with events added while paused) instead of one `run()`.
+#[derive(Clone, Debug, Serialize, Deserialize)]
+pub struct Case {
+    #[serde(flatten)]
+    pub program: Program,
+    #[serde(default)]
+    pub steps: Vec<crate::c10::StepSpec>,
+}
+
+pub fn check(case: &Case) -> Result<(bool, Vec<&'static str>), Failure> {
+    let p = &case.program;
     let res = prog::resolve(p);
-    let m = prog::model(p, 0, &[], None);
-    let r = prog::execute(p, &ExecOpts::default())?;
+    let steps: Option<Vec<prog::Step>> = if case.steps.is_empty() {
+        None
+    } else {
+        Some(crate::c10::resolve_steps(&crate::c10::Case {
+            program: p.clone(),
+            steps: case.steps.clone(),
+        }))
+    };
+    let m = prog::model(p, 0, &[], steps.as_deref());
+    let r = prog::execute(
+        p,
+        &ExecOpts {
+            steps: steps.clone(),
+            ..Default::default()
+        },
+    )?;
+    for (k, rep) in r.steps.iter().enumerate() {
+        if let Some((t, msg)) = &rep.add_rejected {
+            vfail!(
+                "valid-add-rejected",
+                "step #{k}: while paused at {} ns an event for {t} ns (not before the current time) was rejected: {msg}",
+                rep.sim_time
+            );
+        }
+    }
+    // timestamps the externally added events were scheduled with (from the model of the schedule)
+    let ext_time: std::collections::BTreeMap<u32, u128> = m.trace.iter().filter(|(id, _)| *id >= prog::EXTERNAL_BASE).copied().collect();
     for (whr, target, accepted) in &r.past_attempts {
         vensure!(
             !*accepted,
@@ -26,8 +62,20 @@ pub fn check(p: &Program) -> Result<(bool, Vec<&'static str>), Failure> {
         );
     }
     let mut seen = vec![false; p.nodes.len()];
+    let mut seen_ext = std::collections::BTreeSet::new();
     let mut last = p.start_ns as u128;
     for (k, (id, now)) in r.trace.iter().enumerate() {
+        if let Some(t) = ext_time.get(id) {
+            vensure!(
+                now == t,
+                "handler-sees-wrong-time",
+                "dispatch #{k}: handler of externally added event {id} sees SimTime::now() = {now} ns, it was scheduled for {t} ns"
+            );
+            vensure!(*now >= last, "clock-went-backwards", "dispatch #{k}: clock went from {last} ns to {now} ns");
+            vensure!(seen_ext.insert(*id), "event-dispatched-twice", "external event {id} dispatched twice");
+            last = *now;
+            continue;
+        }
         vensure!((*id as usize) < p.nodes.len(), "unknown-event-dispatched", "dispatch #{k} is unknown event {id}");
         vensure!(
             *now == res.time[*id as usize],
@@ -43,6 +91,7 @@ pub fn check(p: &Program) -> Result<(bool, Vec<&'static str>), Failure> {
     if let Some(i) = seen.iter().position(|s| !s) {
         vfail!("event-lost", "node {i} (scheduled for {} ns) was never dispatched", res.time[i]);
     }
+    vensure!(seen_ext.len() == ext_time.len(), "event-lost", "{} of {} externally added events were dispatched", seen_ext.len(), ext_time.len());
     vensure!(
         r.end_time == last,
         "end-time-mismatch",
@@ -74,20 +123,27 @@ pub fn check(p: &Program) -> Result<(bool, Vec<&'static str>), Failure> {
     if p.nodes.len() >= 30 {
         labels.push("nodes>=30");
     }
+    if steps.is_some() {
+        labels.push("driven-in-steps");
+    }
+    if !ext_time.is_empty() {
+        labels.push("events-added-while-paused");
+    }
     let nontrivial = p.start_ns != 0 && m.zero_delay_children > 0 && !r.past_attempts.is_empty();
     Ok((nontrivial, labels))
 }
 
 impl Prop for C02 {
     const ID: &'static str = "C02";
-    type Case = Program;
+    type Case = Case;
 
     fn rule() -> String {
         "proptest event programs on a raw Runtime: start time from {0,1ns,2.5ms,1s,10s,12345.678s}, calendar parameters (n,t), a forest of events \
          (roots scheduled before run at start+delta, children scheduled by their parent's handler via add_event(now+delta) / add_event_in(delta), delta \
          from {0, ns, width-1, width, width+1, k widths, year, year+k, tie with an earlier event}), plus attempts to schedule before the current time \
          (before the run and inside handlers) under catch_unwind. Oracle: every handler sees now()==model timestamp, non-decreasing, each event once, \
-         all past attempts panic, no valid add rejected, run() returns last timestamp and count. Non-trivial iff start != 0 AND a zero-delay child \
+         all past attempts panic, no valid add rejected, run() returns last timestamp and count; a quarter of the cases drive the runtime in steps \
+         (dispatch_n_events / dispatch_events_until with events added while paused, C10's schedule generator) under the same oracle. Non-trivial iff start != 0 AND a zero-delay child \
          exists AND at least one past attempt was made."
             .into()
     }
@@ -101,10 +157,16 @@ impl Prop for C02 {
             watchdog: Duration::from_secs(tier.pick(300, 3600)),
         }
     }
-    fn strategy(tier: Tier) -> BoxedStrategy<Program> {
-        prog::program_strategy(tier.pick(40, 150), false, true).boxed()
+    fn strategy(tier: Tier) -> BoxedStrategy<Case> {
+        let plain = prog::program_strategy(tier.pick(40, 150), false, true).prop_map(|program| Case { program, steps: Vec::new() });
+        // the same oracle on runs that are driven in steps with events added while paused (C10's schedule generator)
+        let stepped = crate::c10::C10::strategy(tier).prop_map(|c| Case {
+            program: c.program,
+            steps: c.steps,
+        });
+        prop_oneof![1 => plain, 1 => stepped].boxed()
     }
-    fn run(case: &Program) -> Outcome {
+    fn run(case: &Case) -> Outcome {
         match check(case) {
             Ok((nt, labels)) => Outcome::ok(nt, labels),
             Err(f) => Outcome::failed(f),
